@@ -500,7 +500,9 @@ def c18(tier, seed, work):
            F.model_check("MCConsole", "MC_Console_nosess_quick.cfg" if tier == "quick" else "MC_Console_nosess.cfg", work)]
     depth = 2 if tier == "quick" else 3
     fams = [F.console_metrics_family(work, "c18-sess", True, "CmdsAR", 2, depth, "KindsRetry", a, i),
-            F.console_metrics_family(work, "c18-nosess", False, "CmdsAB", 2, depth, "KindsRetryNS", 1, 1, codes="CodesAll")]
+            F.console_metrics_family(work, "c18-nosess", False, "CmdsAB", 2, depth, "KindsRetryNS", 1, 1, codes="CodesAll"),
+            # datagrams the session rejects (unsigned, another session's ID, bad signature or pad, stale): not valid responses
+            F.console_metrics_family(work, "c18-forge", True, "CmdsAB", 2, 2, "KindsForge", a, i, codes="CodesOkErr")]
     mcs.append(F.model_check("Lifecycle", "MC_Lifecycle.cfg", work, workers=4))
     for g, inv in (("DecAlways", "C18_Gauge"), ("CountFailure", "C18_Opens"), ("AttemptFirst", "C18_Opens")):
         if not F.expect_violation("Lifecycle", "Mutant_Lifecycle_%s.cfg" % g, work, inv):
